@@ -36,8 +36,18 @@ def make_ev(ctx, model):
     return Ev(model, seeds, intr, attr_hook=qha_attr_hook, ctx=ctx)
 
 
+def drop_subnormal_floor(e):
+    """max(x, c) with 0 <= c < 1e-300 (below every normal double): equal to x wherever x is positive - and the property speaks of the heat
+    capacity only where it is positive.  A floor at a physical magnitude (1e-8 Ry/K is the C_V of a few kelvin) stays in the expression."""
+    e = sp.sympify(e)
+
+    def is_floor(t):
+        return getattr(t.func, "__name__", "") == "MAXIMUM" and len(t.args) == 2 and any(a.is_number and 0 <= a < sp.Float("1e-300") for a in t.args)
+    return e.replace(is_floor, lambda t: next(a for a in t.args if not (a.is_number and 0 <= a < sp.Float("1e-300"))))
+
+
 def norm(x):
-    return bose(sp.sympify(as_sym(x)), QPHYS, E)
+    return bose(drop_subnormal_floor(as_sym(x)), QPHYS, E)
 
 
 def r_gap(ctx, model):
@@ -101,7 +111,7 @@ def r_gap_cells(ctx, model):
         w = model.where(f"{owner}.isothermal_to_adiabatic", f)
         got = cf.attr(cref, "isothermal_to_adiabatic")
         want = T * V * (3 * NAT * cf.avg(dpdt / (3 * E0))) * (3 * NAT * cf.avg(dpdt / (3 * E1))) / CV / AU
-        bad = cf.differs(got, want, pairs=True, same_strain=(kind == "long"))
+        bad = cf.differs(drop_subnormal_floor(as_sym(got)), want, pairs=True, same_strain=(kind == "long"))
         ctx.check(not bad, f"{kind}.isothermal_to_adiabatic cell by cell (2 q-points x 4 modes, symbolic weights)", w,
                   expected="T V/(9 e_i e_j C_V) (3 NAT)^2 avg[dp/dT] avg[dp/dT], avg = sum_q w_q/sum(w) 1/NP sum_m [not Gamma acoustic]",
                   found="differs in " + ", ".join(bad[:4]) if bad else "equal for every cell and cell pair",
@@ -113,7 +123,7 @@ def r_gap_cells(ctx, model):
         o2, f2, _ = model.find_member(cref, "value_adiabatic")
         if f2 is None:
             raise AnalysisError(f"anchor vanished: {cref}.value_adiabatic")
-        d = as_sym(cf.attr(cref, "value_adiabatic")) - as_sym(cf.attr(cref, "value_isothermal")) - as_sym(got)
+        d = drop_subnormal_floor(as_sym(cf.attr(cref, "value_adiabatic")) - as_sym(cf.attr(cref, "value_isothermal")) - as_sym(got))
         badv = cf.differs(d, sp.Integer(0), pairs=True, same_strain=(kind == "long"))
         ctx.check(not badv, f"{kind}.value_adiabatic = value_isothermal + gap (cell fold)", model.where(f"{o2}.value_adiabatic", f2), expected="value_isothermal + isothermal_to_adiabatic",
                   found="differs in " + ", ".join(badv[:4]) if badv else "equal", explanation=f"adiabatic value of the {kind} class is not isothermal + gap (cell by cell)",
@@ -132,7 +142,7 @@ def r_cv(ctx, model):
         ev = make_ev(ctx, model)
         ev.seeds[(QHA_EXT, "settings")] = qha_settings(energy_unit=unit)
         vol = ev.get_attr(ev.get_attr(ev.seeds[(LONG, "calculator")], "qha_calculator"), "volume_base")
-        got = as_sym(ev.get_attr(vol, "heat_capacity"))
+        got = drop_subnormal_floor(as_sym(ev.get_attr(vol, "heat_capacity")))
         ctx.check(is_zero(got - want), f"heat_capacity -> cv_tv_au (qha energy_unit = {unit!r})", model.where(f"{QVOL}.heat_capacity", f),
                   expected="qha cv_tv_au (C_V(T,V) in Ry/K)", found=str(got),
                   explanation="the volume-base heat capacity must be qha's volumetric heat capacity on the (T,V) grid in "
